@@ -117,6 +117,27 @@ CHECKS = {
              "process is sampled (fresh-process runs), not proved.",
         technique="Lean 4 proof about the CLI/compile model + fresh-process differential runs across entry points and hash seeds",
         design="6 C13"),
+    "C16": dict(
+        text="Partial. The fragments of the checker whose totality is not obvious — annotation resolution (no eval: the result type has "
+             "no 'executed' outcome), unification and monomorphism tests on type terms including error values, the subscript-target loop, "
+             "range normalisation of the report — are total Lean functions with theorems (termination by structural recursion / measure, "
+             "results in range) and are diffed against the Python functions on generated inputs. The whole auditor (ast.parse, parsial, "
+             "asttokens, types, enrich, render, html) is run on generated sources covering every ast statement/expression class, type "
+             "errors, layout variation and corrupted lines under a watchdog and an audit hook: it must return a report, never raise, "
+             "never loop, never exec code of the audited text.",
+        note="Trusted: Lean kernel; only fragments of strict.py are modelled (the bulk of `types` is structural recursion over the ast "
+             "tree and is sampled, not proved); third-party parser/tokeniser/report libraries are exercised, not modelled.",
+        technique="Lean 4 totality proofs for the non-obvious fragments + watchdog/audit-hook fuzzing of the whole auditor",
+        design="6 C16"),
+    "C17": dict(
+        text="Lean `render_erase`: for every source text and every sequence of delimiter pushes (hence any sequence of enrich calls with "
+             "any ranges, whitespace skipping or intermediate lines), removing the inserted markup from the rendered report gives back "
+             "the source, line for line (induction over pushes, lines and cells of the richreports model). Partial: proper nesting, the "
+             "displayed type/error of every audited node, display of every restriction and marking of skipped lines are decided by an "
+             "oracle that reads every real report token by token from its stacks (delimiters identified by position, not by pattern).",
+        note="Trusted: Lean kernel; Audit/Report.lean is a model of richreports' stacks/render; token positions come from asttokens.",
+        technique="Lean 4 proof by induction over pushes/cells of the report model + token-level report oracle",
+        design="6 C17"),
     "C19": dict(
         text="Lean theorems for all texts and line numbers (`lineInfo_exact`: offset/length delimit exactly the line, last line "
              "included; `intern_*`: to_index returns an equal entry and keeps earlier indices; `resolve_user`: the frame walk returns "
